@@ -298,10 +298,11 @@ def get_plan(pid):
                         trusted_base=["A-ENGINE", "A-PKG-EVAL: packaging evaluates a marker list as any(all(group)) over the groups separated by 'or', nested lists / triples recursively (transcribed from "
                                       "packaging.markers._evaluate_markers; cross-checked by the bounded part)", "the C02 operator law for `&` and the contract of MarkerUnion.of (proved by the C02 check)",
                                       "recursion: the contract is assumed for sub-trees (partial correctness)", "A-TERM"],
-                        assumptions=["atom level, string variables, ==/!=/in/not in, both operand orders: MarkerExpression._evaluate returns what packaging's _eval_op returns on the written triple "
-                                     "(obligation C03.atom.evaluate-equals-packaging-eval-op; 'well-defined' = operator+literal is not a PEP 440 specifier)",
-                                     "atom level, the rest (version-aware comparison of python_version / python_full_version / platform_release, PEP 685 normalisation of extra, set-valued extras / "
-                                     "dependency_groups): string code on both sides, bounded part only",
+                        assumptions=["atom level: MarkerExpression._evaluate returns what packaging's _eval_op returns on the written triple - string variables with ==/!=/in/not in and any literal "
+                                     "(obligation C03.atom.evaluate-equals-packaging-eval-op), the four version variables with eight operators (C03.atom.version.*), both operand orders; "
+                                     "Specifier(text).contains(item) and 'text is a valid specifier' are uninterpreted (A-PKG-EVAL)",
+                                     "atom level, the rest (version-looking values compared as versions by packaging itself, PEP 685 normalisation of extra, set-valued extras / "
+                                     "dependency_groups): string code on both sides, bounded part only; pre-/post-release environment values: finding D22",
                                      "parse_marker's tokenisation is packaging's own parser (shared by both sides)"],
                         explanation="proof part: the rewriting done while parsing cannot regroup and/or or swap an operator (obligations C03.tree.*, C03.atom.*); bounded part: dep-logic vs packaging.Marker on "
                                     "every text of the pool x environment grid, incl. literal-on-the-left atoms, name normalisation spellings, set-valued extras / dependency_groups")
@@ -435,8 +436,9 @@ def get_plan(pid):
 
 # proof-chain premises re-established inside a check (cheap ones only; C02 as a premise of C03 / C14 is too heavy and is covered by those checks' bounded parts)
 # (C07: the text means what the marker means [own proof part]; that the re-parsed text *evaluates* so is the parser's contract, C03, over the operator laws, C02.
-#  C14 on markers: corollaries of the C02 operator law.)
-PREMISES = {"C04": ["C01"], "C17": ["C06"], "C14": ["C01", "C02"], "C08": ["C05"], "C07": ["C02", "C03"]}
+#  C14 on markers: corollaries of the C02 operator law.
+#  C02 / C03: the version-atom layer uses the C11 contracts (normalisation, from_specifier, the bridge); C03's fold uses the C02 operator law.)
+PREMISES = {"C04": ["C01"], "C17": ["C06"], "C14": ["C01", "C02"], "C08": ["C05"], "C07": ["C02", "C03"], "C02": ["C11"], "C03": ["C02"]}
 
 
 # ---------------------------------------------------------------------------------------------------------------
